@@ -154,6 +154,7 @@ type runawayPanic struct{}
 
 // Host is the harness state attached to one LState.
 type Host struct {
+	lateAttach          bool
 	threadCancel        bool
 	keptErr             *lua.ApiError
 	keptObj             lua.LValue
@@ -232,6 +233,9 @@ type Options struct {
 	// BackgroundFirst: the state starts under context.Background() (whose Done channel is nil); the program's
 	// first statement must be reattach(), which attaches the simulated context in mid-run.
 	BackgroundFirst bool
+	// NoContextFirst: the state starts without any context; the program's first statement, reattach(), attaches the
+	// simulated one in mid-run (the loop that is running the program was entered before there was a context)
+	NoContextFirst bool
 	// ThreadCancelFunc (with OnThread, MainContext and WithContext): no context is attached to the thread; it keeps
 	// the child context NewThread derived for it, and the simulated cancellation calls the cancel function
 	// NewThread returned. The reason such a context gives is context.Canceled.
@@ -282,7 +286,9 @@ func NewHost(o Options) *Host {
 	h := &Host{L: L, ids: map[lua.LValue]int{}, MaxSteps: o.MaxSteps, Kind: o.Kind, At: o.At, TrackLimits: o.TrackLimits, reattachAt: o.ReattachAtHostCall}
 	if o.WithContext && !o.OnThread {
 		h.Ctx = NewSimContext()
-		if o.BackgroundFirst {
+		if o.NoContextFirst {
+			h.lateAttach = true
+		} else if o.BackgroundFirst {
 			L.SetContext(context.Background())
 		} else {
 			L.SetContext(h.Ctx)
@@ -299,7 +305,19 @@ func NewHost(o Options) *Host {
 	L.SetGlobal("hostyield", L.NewFunction(h.hostyield))
 	// reattach(): a host function that replaces the attached context by a fresh one in mid-run
 	// (a no-op when no context is attached); the simulator then fires the new one
+	// detach(): a host function that takes the context away again in mid-run
+	L.SetGlobal("detach", L.NewFunction(func(L *lua.LState) int {
+		L.RemoveContext()
+		return 0
+	}))
 	L.SetGlobal("reattach", L.NewFunction(func(L *lua.LState) int {
+		if h.lateAttach {
+			h.lateAttach = false
+			L.SetContext(h.Ctx)
+			h.Reattached++
+			h.ReattachStep = h.Steps
+			return 0
+		}
 		if h.Ctx != nil && !h.Ctx.Fired() {
 			old := h.Ctx
 			h.Ctx = NewSimContext()
